@@ -23,6 +23,8 @@ type Item struct {
 	Ints   []string `json:"ints"`    // integer constants (package level or inside any func)
 	Strs   []string `json:"strings"` // string constants -> list N
 	Tables []string `json:"bool_tables"`
+	// negative integer constants: emitted as `Definition <name>_neg : N := |value|` (the constant is -<name>_neg)
+	NegInts []string `json:"neg_ints"`
 	// integer literal arguments: func name + call name + arg index -> named constant
 	CallArgs []struct {
 		Name   string `json:"name"`
@@ -31,6 +33,48 @@ type Item struct {
 		Arg    int    `json:"arg"`
 		Nth    int    `json:"nth"`
 	} `json:"call_args"`
+	// integer returned by a one-statement method `func (recv) method() T { return <const expr> }`,
+	// e.g. the generated `func (RpcDestActor) TLTag() uint32 { return 0x7568aabd }`
+	MethodInts []struct {
+		Name   string `json:"name"`
+		Recv   string `json:"recv"`
+		Method string `json:"method"`
+	} `json:"method_ints"`
+	// integer assigned to a field inside a function: the nth `<expr>.<field> = <const int expr>` of func
+	AssignInts []struct {
+		Name  string `json:"name"`
+		Func  string `json:"func"`
+		Field string `json:"field"`
+		Nth   int    `json:"nth"`
+	} `json:"assign_ints"`
+}
+
+// methodInt finds `func (… recv) method() … { return X }` and evaluates X.
+func methodInt(f *ast.File, e *env, recv, method string) (constant.Value, bool) {
+	for _, d := range f.Decls {
+		fd, ok := d.(*ast.FuncDecl)
+		if !ok || fd.Name.Name != method || fd.Recv == nil || len(fd.Recv.List) != 1 || fd.Body == nil || len(fd.Body.List) != 1 {
+			continue
+		}
+		t := fd.Recv.List[0].Type
+		if st, ok := t.(*ast.StarExpr); ok {
+			t = st.X
+		}
+		id, ok := t.(*ast.Ident)
+		if !ok || id.Name != recv {
+			continue
+		}
+		rs, ok := fd.Body.List[0].(*ast.ReturnStmt)
+		if !ok || len(rs.Results) != 1 {
+			continue
+		}
+		v, err := e.eval(rs.Results[0], 0)
+		if err != nil || v.Kind() != constant.Int || constant.Sign(v) < 0 {
+			continue
+		}
+		return v, true
+	}
+	return nil, false
 }
 
 type env struct {
@@ -217,6 +261,21 @@ func main() {
 			}
 			sb.WriteString(fmt.Sprintf("Definition %s : N := %s.\n", coqIdent(it.Prefix, name), v.ExactString()))
 		}
+		for _, name := range it.NegInts {
+			d, ok := e.consts[name]
+			if !ok {
+				fmt.Fprintf(os.Stderr, "genconsts: constant %s not found in %s\n", name, it.File)
+				fail = true
+				continue
+			}
+			v, err := e.eval(d, e.iota[name])
+			if err != nil || v.Kind() != constant.Int || constant.Sign(v) >= 0 {
+				fmt.Fprintf(os.Stderr, "genconsts: constant %s in %s: expected a negative integer: %v (value %v)\n", name, it.File, err, v)
+				fail = true
+				continue
+			}
+			sb.WriteString(fmt.Sprintf("Definition %s_neg : N := %s.\n", coqIdent(it.Prefix, name), constant.UnaryOp(token.SUB, v, 0).ExactString()))
+		}
 		for _, name := range it.Strs {
 			d, ok := e.consts[name]
 			if !ok {
@@ -312,6 +371,49 @@ func main() {
 			})
 			if !found {
 				fmt.Fprintf(os.Stderr, "genconsts: call argument %s (%s in %s) not found in %s\n", ca.Name, ca.Callee, ca.Func, it.File)
+				fail = true
+			}
+		}
+		for _, mi := range it.MethodInts {
+			v, ok := methodInt(f, e, mi.Recv, mi.Method)
+			if !ok {
+				fmt.Fprintf(os.Stderr, "genconsts: method constant %s (func (%s) %s) not found in %s\n", mi.Name, mi.Recv, mi.Method, it.File)
+				fail = true
+				continue
+			}
+			sb.WriteString(fmt.Sprintf("Definition %s : N := %s.\n", coqIdent(it.Prefix, mi.Name), v.ExactString()))
+		}
+		for _, ai := range it.AssignInts {
+			found := false
+			ast.Inspect(f, func(n ast.Node) bool {
+				fd, ok := n.(*ast.FuncDecl)
+				if !ok || fd.Name.Name != ai.Func || fd.Body == nil {
+					return true
+				}
+				nth := 0
+				ast.Inspect(fd.Body, func(m ast.Node) bool {
+					as, ok := m.(*ast.AssignStmt)
+					if !ok || as.Tok != token.ASSIGN || len(as.Lhs) != 1 || len(as.Rhs) != 1 {
+						return true
+					}
+					sel, ok := as.Lhs[0].(*ast.SelectorExpr)
+					if !ok || sel.Sel.Name != ai.Field {
+						return true
+					}
+					if nth == ai.Nth {
+						v, err := e.eval(as.Rhs[0], 0)
+						if err == nil && v.Kind() == constant.Int && constant.Sign(v) >= 0 {
+							sb.WriteString(fmt.Sprintf("Definition %s : N := %s.\n", coqIdent(it.Prefix, ai.Name), v.ExactString()))
+							found = true
+						}
+					}
+					nth++
+					return true
+				})
+				return false
+			})
+			if !found {
+				fmt.Fprintf(os.Stderr, "genconsts: assignment %s (.%s in %s) not found in %s\n", ai.Name, ai.Field, ai.Func, it.File)
 				fail = true
 			}
 		}
